@@ -76,6 +76,19 @@ func Point(name string) {
 	exit(op, "")
 }
 
+// PollPoints makes every look at the context's cancellation (ctx.Err() in lib/query) a numbered point. It is
+// switched on by VERIF_POLL_POINTS=1 in process mode only: there a signal can then be delivered right before any
+// such look, i.e. in the middle of loading, evaluating or encoding. The schedule explorers leave it off (a look at
+// the context touches nothing that another process or goroutine can see).
+var PollPoints bool
+
+func PollErr(ctx context.Context) error {
+	if PollPoints {
+		Point("poll")
+	}
+	return ctx.Err()
+}
+
 func Stat(name string) (os.FileInfo, error) {
 	op, d := enter("stat", name, "")
 	if d.Inject != nil {
